@@ -480,10 +480,10 @@ Lemma impute_spec_no_null_id : forall m c, has_null c = false -> impute_spec m c
 Proof. intros. apply preserves_no_null_id; auto. apply impute_spec_preserves. Qed.
 
 (* _perform_imputation (one source column, no group_by) = the spec, also on its early-return path *)
-Lemma pydict_perform_refines_l : forall num m c, py_perform_imputation num m None c = Some (impute_spec m c).
+Lemma pydict_perform_refines_l : forall m c, py_perform_imputation m None c = impute_spec m c.
 Proof.
   intros. unfold py_perform_imputation. destruct (has_null c) eqn:E; cbn [negb].
-  - rewrite pydict_impute_refines_l. reflexivity.
+  - apply pydict_impute_refines_l.
   - rewrite impute_spec_no_null_id by auto. reflexivity.
 Qed.
 
@@ -663,9 +663,9 @@ Proof.
   eapply preserves_trans. apply set_nth_preserves. exact E. apply IH.
 Qed.
 
-Lemma py_grouped_preserves_l : forall m keys c, preserves c (py_grouped_num m keys c).
+Lemma py_grouped_preserves_l : forall m keys c, preserves c (py_grouped m keys c).
 Proof.
-  intros [| | |k| |] keys c; unfold py_grouped_num.
+  intros [| | |k| |] keys c; unfold py_grouped.
   - apply fold_left_preserves. intros. apply group_stat_preserves.
   - apply fold_left_preserves. intros. apply group_stat_preserves.
   - apply fold_left_preserves. intros. apply group_stat_preserves.
@@ -674,25 +674,15 @@ Proof.
   - apply fold_left_preserves. intros. apply group_ffill_preserves.
 Qed.
 
-Lemma py_perform_preserves_l : forall num m g c c', py_perform_imputation num m g c = Some c' -> preserves c c'.
+Lemma py_perform_preserves_l : forall m g c, preserves c (py_perform_imputation m g c).
 Proof.
-  intros num m g c c' H. unfold py_perform_imputation in H. destruct (negb (has_null c)).
-  - inversion H. apply preserves_refl.
-  - destruct g as [keys|].
-    + unfold py_grouped in H.
-      assert (G : forall m', (match num, vals c with false, _ :: _ => None | _, _ => Some (py_grouped_num m' keys c) end) = Some c'
-                             -> preserves c c').
-      { intros m' H'. destruct num, (vals c); inversion H'; apply py_grouped_preserves_l. }
-      destruct m; try (apply (G _ H)). inversion H. apply fill_with_preserves.
-    + inversion H. apply impute_preserves_non_null_l.
+  intros m g c. unfold py_perform_imputation. destruct (negb (has_null c)). apply preserves_refl.
+  destruct g as [keys|]. apply py_grouped_preserves_l. apply impute_preserves_non_null_l.
 Qed.
 
-(* ---- the mode is a most frequent value; the recorded conventions agree with the spec outside their domains ---- *)
+(* ---- the mode is a most frequent value ---- *)
 Lemma mode_l_spec : forall l v, mode_l l = Some v -> In v l /\ forall y, In y l -> (count_of y l <= count_of v l)%nat.
 Proof.
   intros l v H. unfold mode_l in H. apply find_some in H. destruct H as [Hin H]. split; auto.
   intros y Hy. rewrite forallb_forall in H. apply Nat.leb_le. apply H. exact Hy.
 Qed.
-
-Lemma fill_trunc_integer_l : forall z c, fill_trunc (Some (inject_Z z)) c = fill_with (Some (inject_Z z)) c.
-Proof. intros. unfold fill_trunc. cbn [option_map]. rewrite qtrunc_integer. reflexivity. Qed.
